@@ -17,6 +17,9 @@ for _c in _chain:
     _c.callees = dict(_W.CHAIN_CALLEES)
     _c.lib = filemodel.install_repo_models(dict(_W.LIB))
 CONTRACTS += _chain
+# the raw rows come back to the user through JokerSamples.unpack: column j is the parameter named by the j-th key of the kernel's units table
+from . import c17 as _C17   # noqa: E402
+CONTRACTS += _C17.unpack
 HOOKS = KN.HOOKS
 AXIOMS = KN.AXIOMS
 LEMMAS = ["Marginal.lean"]
